@@ -214,6 +214,16 @@ func (r *redisStore) ClearAuthorizationState(ctx context.Context, sessionID stri
 	log := r.log.Context(ctx).With("session-id", sessionID)
 	log.Debug("clearing authorization state")
 
+	// Clearing the authorization state of a session that does not exist is not an error:
+	// there is nothing to clear (same behavior as the in-memory store).
+	exists, err := r.client.Exists(ctx, sessionID).Result()
+	if err != nil {
+		return err
+	}
+	if exists == 0 {
+		return nil
+	}
+
 	if err := r.client.HDel(ctx, sessionID, keyState, keyNonce, keyRequestedURL).Err(); err != nil {
 		return err
 	}
